@@ -1710,15 +1710,21 @@ int bufr_apply_op_crefval( BufrDDOp *ddo, BufrDescriptor *cb, BUFR_Template *tmp
          if (ddo->change_ref_val_op > 0)
             {
             EntryTableB *tb1, *tb2;
-            float        value;
+            int          value;
+            int          ismsng;
 
-            value = bufr_value_get_float( cb->value );
+/*
+ * the new reference value is an integer of up to 32 bits: taken through a float it lost 
+ * its low bits beyond 24
+ */
+            ismsng = (cb->value == NULL) || bufr_value_is_missing( cb->value );
+            value = ismsng ? 0 : bufr_value_get_int32( cb->value );
 
-            if ( !bufr_is_missing_float(value) )
+            if ( !ismsng )
                {
                if (debug)
                   {
-                  sprintf( errmsg, "%f ", value );
+                  sprintf( errmsg, "%d ", value );
                   bufr_print_debug( errmsg );
                   }
                if (bufr_is_table_b( cb->descriptor ))
